@@ -866,3 +866,158 @@ def install(lib):
     lib.loop_spec(key % 3, LoopSpec(wl_in_inv, havoc=wl_havoc, world=("__read_l",)))
     cs = [c for c in cs if c.qual not in ("LinkStore.weighted_link_nodes_iter", "LRUTrieNode.read", "LRUTrie.windup_lru_for_webentity")]
     return cs + [HasInlinks(), Inlinks(), RealmCallee(), WeightedBoth(), NodeReadBoth(), WindupWeBoth(), WebentityPagelinks()]
+
+
+# ============================================================================ get_page_links (C03)
+LRU0 = z3.Const("page_lru", BYTES)
+NKP = z3.Function("N_KEPT_OUTLINKS_OF_THE_PAGE", INT, INT)
+NKPI = z3.Function("N_KEPT_INLINKS_OF_THE_PAGE", INT, INT)
+ZERO = z3.IntVal(0)
+
+
+def pl_keep_out(l):
+    t = T_LRU(TARGET(ZERO, ZERO, l))
+    return z3.Or(z3.And(INC_OUT, t != LRU0), z3.And(INC_INT, t == LRU0))
+
+
+def pl_keep_in(l):
+    return T_LRU(SRC(ZERO, ZERO, l)) != LRU0
+
+
+def page_axioms():
+    l = z3.Int("l")
+    return [
+        N_LINKS(ZERO, ZERO) >= 0,
+        N_IN(ZERO, ZERO) >= 0,
+        NKP(0) == 0,
+        NKPI(0) == 0,
+        z3.ForAll([l], z3.Implies(l >= 0, z3.And(NKP(l + 1) == NKP(l) + z3.If(pl_keep_out(l), 1, 0), NKP(l) >= 0))),
+        z3.ForAll([l], z3.Implies(l >= 0, z3.And(NKPI(l + 1) == NKPI(l) + z3.If(pl_keep_in(l), 1, 0), NKPI(l) >= 0))),
+    ]
+
+
+class PageLookup(Contract):
+    qual = "LRUTrie.lru_node"
+
+    def apply(self, ex, p, recv, args, kw, ln):
+        q = p.fork()
+        ex.oblige(q, "looks-up-the-given-lru", to_z3(args[0]) == LRU0, ln, "post")
+        node = q.new_obj("LRUTrieNode", {"__abstract": True, "__item": True})
+        q.w["__cur_i"] = ZERO
+        q.w["__item_var"] = ZERO
+        q.w["__lookups"] = z3.simplify(q.w["__lookups"] + 1)
+        q.mut += 1
+        return [(q, Opt(z3.Not(STORED(ZERO)), node))]
+
+
+def page_links_append(ex, p, o, v):
+    l = p.w["__link_var"]
+    items = p.obj(v).f.get("items") if isinstance(v, Ref) and p.obj(v).cls == "list" else None
+    ok = items is not None and len(items) == 3
+    ex.oblige(p, "listed-link:is-[source,target,weight]", z3.BoolVal(bool(ok)), None, "post")
+    side = p.w.get("__side")
+    if ok and side == "out":
+        ex.oblige(p, "outlink:[the-page,lru-of-the-target,weight]", z3.And(to_z3(items[0]) == LRU0, to_z3(items[1]) == T_LRU(TARGET(ZERO, ZERO, l)), to_z3(items[2]) == WEIGHT(ZERO, ZERO, l)), None, "post")
+        ex.oblige(p, "outlink:kept-by-the-switches(a-self-link-is-internal)", pl_keep_out(l), None, "post")
+        p.w["__out_listed"] = z3.simplify(p.w["__out_listed"] + 1)
+    elif ok and side == "in":
+        ex.oblige(p, "inlink:[lru-of-the-source,the-page,weight]", z3.And(to_z3(items[0]) == T_LRU(SRC(ZERO, ZERO, l)), to_z3(items[1]) == LRU0, to_z3(items[2]) == IN_W(ZERO, ZERO, l)), None, "post")
+        ex.oblige(p, "inlink:listed-only-from-another-page-and-when-inbound-is-asked", z3.And(INC_IN, pl_keep_in(l)), None, "post")
+        p.w["__in_listed"] = z3.simplify(p.w["__in_listed"] + 1)
+    else:
+        ex.oblige(p, "listed-link:inside-a-link-walk", False, None, "post")
+    o.f["len"] = o.f["len"] + 1
+
+
+def gl_havoc(ex, p):
+    p.env["pagelinks"] = p.new_obj("list", {"len": fresh("n_links", INT), "elem": lambda i: fresh("link", INT), "on_append": page_links_append})
+
+
+def gl_out_inv(ex, p):
+    l = _idx(p, -1)
+    return [("no-outlink-skipped-or-repeated", z3.And(l >= 0, p.w["__out_listed"] == NKP(l), p.w["__in_listed"] == 0)), ("answer-holds-the-links-listed", _len(p, "pagelinks") == p.w["__out_listed"] + p.w["__in_listed"])]
+
+
+def gl_in_inv(ex, p):
+    l = _idx(p, -1)
+    return [("no-inlink-skipped-or-repeated", z3.And(l >= 0, p.w["__in_listed"] == NKPI(l))), ("answer-holds-the-links-listed", _len(p, "pagelinks") == p.w["__out_listed"] + p.w["__in_listed"]), ("out-walk-result-kept", p.w["__out_listed"] == p.w["__out_total"])]
+
+
+class WeightedPage(WeightedBoth):
+    def seq(self, ex, p, recv, args, kw, ln):
+        q, view = WeightedBoth.seq(self, ex, p, recv, args, kw, ln)
+        if q.w.get("__side") == "in":
+            q.w["__out_total"] = q.w["__out_listed"]
+            q.w["__in_walked"] = True
+        else:
+            q.w["__out_walked"] = True
+        return q, view
+
+
+class PageLinks(Contract):
+    """Traph.get_page_links(lru, switches) over ANY link sequences of the page: [] when
+    the LRU is not stored or not a page; otherwise the out-links kept by the
+    outbound/internal switches (a link to the page itself is internal) followed by the
+    in-links from other pages when inbound is asked - each with its weight, none skipped
+    or repeated; the out-list is walked iff the page has out-links and outbound or
+    internal is asked, the in-list iff it has in-links and inbound is asked (a page
+    without out-links still reports its in-links)."""
+
+    qual = "Traph.get_page_links"
+
+    def setups(self, ex):
+        p = Path()
+        for ax in axioms() + link_axioms() + inlink_axioms() + page_axioms():
+            p.assume(ax)
+        mk_world(p)
+        for k_ in ("__link_var", "__item_var", "__read_l"):
+            p.w[k_] = z3.IntVal(-1)
+        p.w["__side"] = None
+        p.w["__len0"] = z3.IntVal(0)
+        p.w["__out_listed"] = z3.IntVal(0)
+        p.w["__in_listed"] = z3.IntVal(0)
+        p.w["__out_total"] = z3.IntVal(0)
+        p.w["__out_walked"] = False
+        p.w["__in_walked"] = False
+        trie = p.new_obj("LRUTrie", {})
+        ls = p.new_obj("LinkStore", {})
+        t = p.new_obj("Traph", {"lru_trie": trie, "link_store": ls, "encoding": "utf-8"})
+        yield p, t, [LRU0], {"include_inbound": INC_IN, "include_internal": INC_INT, "include_outbound": INC_OUT}, "any"
+
+    def check(self, ex, p0, res, tag):
+        for p1, kind, val in res:
+            if kind == "raise":
+                ex.oblige(p1, "raises-nothing(%s)" % val[0], False, val[1])
+                continue
+            ok = isinstance(val, Ref) and p1.obj(val).cls == "list"
+            if not ok:
+                ex.oblige(p1, "returns-a-list", False, None)
+                continue
+            o = p1.obj(val)
+            n = z3.IntVal(len(o.f["items"])) if "items" in o.f else o.f["len"]
+            is_page = z3.And(STORED(ZERO), IS_PAGE(ZERO, ZERO))
+            want_out = z3.And(is_page, HAS_OUT(ZERO, ZERO), z3.Or(INC_OUT, INC_INT))
+            want_in = z3.And(is_page, IN_HAS(ZERO, ZERO), INC_IN)
+            ex.oblige(p1, "out-list-walked<=>the-page-has-out-links-and-outbound-or-internal-is-asked", z3.BoolVal(bool(p1.w["__out_walked"])) == want_out, None)
+            ex.oblige(p1, "in-list-walked<=>the-page-has-in-links-and-inbound-is-asked", z3.BoolVal(bool(p1.w["__in_walked"])) == want_in, None)
+            ex.oblige(p1, "every-kept-out-link-listed-once", z3.Implies(want_out, p1.w["__out_listed"] == NKP(N_LINKS(ZERO, ZERO))), None)
+            ex.oblige(p1, "every-in-link-from-another-page-listed-once", z3.Implies(want_in, p1.w["__in_listed"] == NKPI(N_IN(ZERO, ZERO))), None)
+            ex.oblige(p1, "answer-is-exactly-the-links-listed", n == p1.w["__out_listed"] + p1.w["__in_listed"], None)
+
+
+class HasLinks(Contract):
+    qual = "LRUTrieNode.has_links"
+
+    def apply(self, ex, p, recv, args, kw, ln):
+        i, j = _item(p, recv)
+        out = kw.get("out", args[0] if args else True)
+        o = to_z3(ex.truth(out, p))
+        return [(p, z3.If(o, HAS_OUT(i, j), IN_HAS(i, j)))]
+
+
+def install_page_links(lib):
+    cs = install(lib) + [HasLinks()]
+    lib.loop_spec("Traph.get_page_links::for#0", LoopSpec(gl_out_inv, havoc=gl_havoc, world=("__read_l", "__out_listed")))
+    lib.loop_spec("Traph.get_page_links::for#1", LoopSpec(gl_in_inv, havoc=gl_havoc, world=("__read_l", "__in_listed")))
+    cs = [c for c in cs if c.qual not in ("LRUTrie.lru_node", "LinkStore.weighted_link_nodes_iter")]
+    return cs + [PageLookup(), WeightedPage(), PageLinks()]
